@@ -150,6 +150,32 @@ class Tracer(object):
         return None
 
 
+def dead_survivors(tr):
+    """the direct law of C06's "their pending tasks and waits are cancelled": after every step, no canceller (a task request
+    or Wait timer outstanding) belongs to a branch of an attempt that is terminated, or nested at any depth in a branch of
+    one that is, or to any branch once the execution has ended.  -> [(step, state name, reason)]"""
+    out = []
+    for k, st in enumerate(tr.steps):
+        a = st["after"]
+        if a is None or a["bm"] is None:
+            continue
+        ended = a["status"] not in (None, "RUNNING")
+        for cid in sorted(a["cancellers"]):
+            body = tr.bodies.get(cid)
+            if not body or ((body.get("context") or {}).get("Execution") or {}).get("Id") != tr.ea:
+                continue
+            stack = branch_stack(body)
+            if not stack:
+                continue
+            name = ((body.get("context") or {}).get("State") or {}).get("Name")
+            dead = [e.get("ID") for e in stack if (a["bm"].get(e.get("ID")) or {}).get("terminated") is not None]
+            if dead:
+                out.append([k, name, "enclosing attempt terminated"])
+            elif ended:
+                out.append([k, name, "execution ended"])
+    return out
+
+
 # ------------------------------------------------------------------------------------------------ abstraction
 
 def slot_kind(x, eid, cancellers):
